@@ -14,11 +14,14 @@ import collections
 import hashlib
 import json
 import os
+import signal
+import threading
 import time
 
-from . import env, sentinel
+from . import breadcrumb, env, sentinel
 
 MAX_WITNESS_PER_MECH = 3
+CPU_ALLOWANCE_S = 120      # CPU seconds one guarded call may use (ordinary calls: milliseconds)
 MAX_SAMPLES = 6
 
 
@@ -118,7 +121,13 @@ class Ctx:
         Run fn under the step budget.  Returns (kind, value):
           ('ok', result) | ('exc', exception) | ('steps', site)
         """
-        sentinel.arm(budget if budget is not None else 2_000_000)
+        budget = budget if budget is not None else 2_000_000
+        # CPU-time allowance for this one call, enforced by the kernel (see breadcrumb.py): far above what the line budget
+        # allows at the slowest observed rate, so it only ever fires for time spent where no line is executed
+        timed = threading.current_thread() is threading.main_thread()
+        if timed:
+            signal.setitimer(signal.ITIMER_VIRTUAL, max(CPU_ALLOWANCE_S, budget / 100_000))
+        sentinel.arm(budget)
         try:
             result = fn(*args, **kwargs)
             return 'ok', result
@@ -128,7 +137,13 @@ class Ctx:
             return 'exc', ex
         finally:
             n = sentinel.disarm()
+            if timed:
+                signal.setitimer(signal.ITIMER_VIRTUAL, 0)
             self.counters['cardutil_lines_executed'] += n
+
+    def crumb(self, replayable_case):
+        """Note the call about to be made (a case judge() can replay on its own) where it survives this process."""
+        breadcrumb.call(replayable_case)
 
     # -- second, independent workloads for the same oracles ---------------------------------------------------
     def install_online_monitors(self, families):
@@ -209,6 +224,7 @@ def run_shard(mod, ctx, time_cap=None):
         mod.canaries(ctx)
     capped = False
     for case in mod.cases(ctx):
+        breadcrumb.case(case)
         mod.judge(ctx, case)
         if time_cap and time.time() - t0 > time_cap:
             capped = True
